@@ -411,6 +411,33 @@ fn presentations() -> &'static Vec<Pres> {
 /// cap of the serialization sink: the 41 presentations are tiny (largest legitimate output < 1 KiB)
 pub const SINK_CAP: usize = 64 * 1024;
 pub const VERDICT_RUNAWAY: &str = "HARNESS-VERDICT runaway-output: ";
+pub const VERDICT_DANGLING: &str = "HARNESS-VERDICT dangling-key-after-parse: ";
+
+/// A `SchemaMut` that `str::parse` returned as Ok must be a closed graph: every key it holds
+/// (array items, map values, union variants, record field types) is an index below
+/// `nodes().len()`. A key that is not (e.g. a late-name placeholder that was never remapped)
+/// makes the documented `schema[key]` panic and every later traversal fail.
+fn check_keys_in_range(m: &SchemaMut) {
+	use serde_avro_fast::schema::RegularType as T;
+	let len = m.nodes().len();
+	for (i, n) in m.nodes().iter().enumerate() {
+		let keys: Vec<usize> = match &n.type_ {
+			T::Array(a) => vec![a.items.idx()],
+			T::Map(x) => vec![x.values.idx()],
+			T::Union(u) => u.variants.iter().map(|k| k.idx()).collect(),
+			T::Record(r) => r.fields.iter().map(|f| f.type_.idx()).collect(),
+			_ => vec![],
+		};
+		if let Some(k) = keys.iter().find(|k| **k >= len) {
+			panic!("{VERDICT_DANGLING}str::parse::<SchemaMut>() returned Ok, but node #{i} ({}) holds the key {k} while the graph has {len} nodes", match &n.type_ {
+				T::Array(_) => "array",
+				T::Map(_) => "map",
+				T::Union(_) => "union",
+				_ => "record",
+			});
+		}
+	}
+}
 
 struct Capped {
 	buf: Vec<u8>,
@@ -607,6 +634,7 @@ pub fn run_op(ctx: &Ctx, idx: u64, op: usize, step: &StepCell, meta: &mut dyn Fn
 					Err(_) => return out(false, 0),
 				};
 				let mut d = 0u8;
+				check_keys_in_range(&m);
 				step.set(ST_DEBUG);
 				let _ = format!("{m:?}").len();
 				step.set(ST_JSON);
